@@ -99,6 +99,23 @@ func init() {
 						o.Where = Op(">", Col("s.a0"), Lit(Int(1)))
 						o.Proj = []Proj{{Star: true}}
 						cases = append(cases, cs{o})
+						// strict operators over an aggregate column of the subquery (an all-NULL group makes it NULL)
+						for _, a := range []agg{{"sum", false, "t.x"}, {"min", false, "t.x"}, {"avg", false, "t.f"}, {"sum", true, "t.x"}} {
+							if ai != 0 && !r.Thorough() {
+								break // quick: once per (table, key set)
+							}
+							o2 := NewQuery()
+							o2.From = &From{Sub: mkq(t, keys, []agg{a}, ""), Alias: "s"}
+							o2.Where = Op("<", Col("s.a0"), Lit(Float(1)))
+							if a.arg == "t.x" {
+								o2.Where = Op("<", Col("s.a0"), Lit(Int(1)))
+							}
+							o2.Proj = []Proj{{Star: true}}
+							o3 := NewQuery()
+							o3.From = &From{Sub: mkq(t, keys, []agg{a}, ""), Alias: "s"}
+							o3.Proj = []Proj{{E: Op("isnull", Op("neg", Col("s.a0"))), Alias: "n"}, {E: Col("s.k0")}}
+							cases = append(cases, cs{o2}, cs{o3})
+						}
 					}
 				}
 			}
@@ -123,7 +140,7 @@ func init() {
 			}
 		}
 		r.Bound = map[string]interface{}{"tables": len(tables), "key_sets": len(keysets), "aggregate_lists": len(agglists), "cases": len(cases)}
-		r.Rule = "GROUP BY queries (0-2 key expressions incl. g+1; count(*)/count/sum/avg/min/max/array_agg and DISTINCT variants over Int, Float and String columns, alone and in lists of 3; HAVING-like outer WHERE; DISTINCT and plain aggregates over a subquery that retracts (GROUP BY g,h TRIGGER COUNTING 1)) x every multiset of <=3 (4) rows over 9 NULL-heavy candidate rows (incl. values that cancel to 0), each run with the hash-map implementation and with TRIGGER COUNTING 1000 (btree implementation), through the real root command vs the reference grouping; non-trivial = result with at least two groups or a NULL aggregate"
+		r.Rule = "GROUP BY queries (0-2 key expressions incl. g+1; count(*)/count/sum/avg/min/max/array_agg and DISTINCT variants over Int, Float and String columns, alone and in lists of 3; HAVING-like outer WHERE, also with strict comparisons / arithmetic over a sum, min, avg column that is NULL for an all-NULL group; DISTINCT and plain aggregates over a subquery that retracts (GROUP BY g,h TRIGGER COUNTING 1)) x every multiset of <=3 (4) rows over 9 NULL-heavy candidate rows (incl. values that cancel to 0), each run with the hash-map implementation and with TRIGGER COUNTING 1000 (btree implementation), through the real root command vs the reference grouping; non-trivial = result with at least two groups or a NULL aggregate"
 		r.Assume("an empty input with zero key expressions is not judged (the statement says one row per distinct key; SQL would print one row)", "float aggregates over dyadic values compare exactly")
 		cache := newFPCache()
 		enum.Parallel(len(cases), func(i int) {
